@@ -506,3 +506,17 @@ func checkTyped(m *Mismatch, w *Node, msg spec.Message, tag uint16, path string)
 		}
 	}
 }
+
+// CheckMessage compares an opened message value (not its bytes) with the tree.
+func CheckMessage(n *Node, msg spec.Message) *Mismatch {
+	m := &Mismatch{}
+	checkMessage(m, n, msg, "$")
+	return m
+}
+
+// CheckList compares an opened list value with the tree.
+func CheckList(n *Node, l spec.List) *Mismatch {
+	m := &Mismatch{}
+	checkList(m, n, l, "$")
+	return m
+}
